@@ -3,11 +3,11 @@
 # under seeded/<prop>-<A|B>/ and run the owning check against it.
 P="$1"; W="$2"
 cd /verif || exit 2
-DEL="/tmp/mut/$P/deliver"
-OUT="seeded/$P-$W"
+DEL="${MUTROOT:-/tmp/mut}/$P/deliver"
+OUT="seeded/$P-${SEED_ROUND}$W"
 mkdir -p "$OUT"
 if ! tools/confirm_seed.sh "$DEL" "$W" "$OUT" > "$OUT/confirm.stdout" 2>&1; then
-  echo "$P-$W NOT CONFIRMED: $(tail -1 $OUT/confirm.txt)"
+  echo "$P-${SEED_ROUND}$W NOT CONFIRMED: $(tail -1 $OUT/confirm.txt)"
   exit 1
 fi
 cp "$DEL/$W.patch.diff" "$OUT/patch.diff"
@@ -21,5 +21,5 @@ out={"breaks_property": sys.argv[3], "summary": e.get("summary"), "files": e.get
      "confirmed_by": "tools/confirm_seed.sh in a scratch worktree of /repo HEAD: demo passes on unmodified code, patch applies and compiles, demo fails with the change, root-module test suite passes with the change (see confirm.txt)"}
 json.dump(out, open(sys.argv[4]+"/meta.json","w"), indent=1)
 PY
-res=$(MUTDIR=/tmp/mutrun.$P$W tools/mutcheck.sh "$OUT/patch.diff" "$P" 2>&1 | head -2 | tr '\n' ' ')
-echo "$P-$W CONFIRMED :: $res" | tee "$OUT/check_result.txt"
+res=$(MUTDIR=/tmp/mutrun.$P${SEED_ROUND}$W tools/mutcheck.sh "$OUT/patch.diff" "$P" 2>&1 | head -2 | tr '\n' ' ')
+echo "$P-${SEED_ROUND}$W CONFIRMED :: $res" | tee "$OUT/check_result.txt"
